@@ -528,7 +528,7 @@ def sym_expr(fi, expr, at, depth=6, allow_calls=(), keep=(), trace=None):
             defs = du.reaching(e.id, node_id)
             if len(defs) > 1 and d > 2:
                 defs = feasible(defs, node_id)
-            if len(defs) == 1 and defs[0][0] != "ENTRY" and isinstance(defs[0][1], ast.AST) and defs[0][2] not in ("aug",):
+            if len(defs) == 1 and defs[0][0] != "ENTRY" and isinstance(defs[0][1], ast.AST) and defs[0][2] in ("assign", "annassign", "walrus"):
                 v = defs[0][1]
                 # (a list / dict / set display is an object that is mutated later, not a value)
                 if not any(isinstance(x, (ast.Await, ast.Yield, ast.YieldFrom, ast.NamedExpr, ast.Lambda, ast.List, ast.Dict, ast.Set, ast.ListComp, ast.DictComp,
